@@ -105,6 +105,7 @@ impl Kind {
             Kind::Console => (1 << 0) | (1 << 2),
             Kind::Gpu => 1 << 1,
             Kind::NetRaw | Kind::Net => (1 << 5) | (1 << 16),
+            Kind::P9 => 1 << 0,
             _ => 0,
         }
     }
